@@ -71,7 +71,14 @@ def cases(spec, ctx):
                 ops = [["take"] + o[1:] if o[0] == "abandon" else o for o in ops]
             if twin == "ix":
                 from .. import ix
-                yield {"twin": twin, "ops": ops, "caching": rng.random() < 0.65, "ix": ix.gen_case(rng), "data": [], "conds": [["a", 0], ["a", 0]],
+                ixc = ix.gen_case(rng)
+                if rng.random() < 0.4:
+                    # (only here, where the answer is defined by a fresh twin and not by the oracle: elements whose own collection
+                    #  is EMPTY - what a for_all over no value at all means is not judged, that it means the same every time is)
+                    for j in rng.sample(range(len(ixc["world"]["subs"])), rng.randint(1, 3)):
+                        ixc["world"]["subs"][j] = []
+                    ixc["empty_collections"] = True
+                yield {"twin": twin, "ops": ops, "caching": rng.random() < 0.65, "ix": ixc, "data": [], "conds": [["a", 0], ["a", 0]],
                        "links": []}
                 continue
             yield {"twin": twin, "ops": ops, "caching": rng.random() < 0.65,
@@ -526,6 +533,8 @@ def check_twin_case(case, ctx):
         return check_shareddomain_case(case, ctx)
     from entity_query_language.cache_data import enable_caching, disable_caching
     ctx.cls("cls:twin:" + case["twin"])
+    if case["twin"] == "ix" and case["ix"].get("empty_collections"):
+        ctx.cls("cls:twin:ix_with_empty_collections")
     (enable_caching if case["caching"] else disable_caching)()
     log, keep = [], []
     try:
